@@ -633,6 +633,7 @@ def kcoreness_centrality_bu(CIJ):
     kn : Nx1 np.ndarray
         size of k-core for all values of K between 1 and N
     '''
+    CIJ = np.asarray(CIJ, dtype=float)  # the same network whatever the storage: arithmetic below must not be logical (bool) or wrap (small integers)
     N = len(CIJ)
 
     # determine if the network is undirected -- if not, compute coreness
@@ -674,6 +675,7 @@ def module_degree_zscore(W, ci, flag=0):
     Z : Nx1 np.ndarray
         within-module degree Z-score
     '''
+    W = np.asarray(W, dtype=float)  # the same network whatever the storage: arithmetic below must not be logical (bool) or wrap (small integers)
     _, ci = np.unique(ci, return_inverse=True)
     ci += 1
 
